@@ -424,3 +424,150 @@ pub fn lower(spec: &Spec) -> Vec<(String, Crate)> {
     }
     out
 }
+
+// ---------------------------------------------------------------- what serde would say (independent of crux_cli)
+/// serde's `rename_all` rules, written from serde's documentation (serde_derive/src/internals/case.rs
+/// semantics): variants are PascalCase in the source, fields snake_case.
+fn rename_variant(rule: &str, v: &str) -> String {
+    let snake = |v: &str| {
+        let mut s = String::new();
+        for (i, ch) in v.char_indices() {
+            if i > 0 && ch.is_uppercase() {
+                s.push('_');
+            }
+            s.push(ch.to_ascii_lowercase());
+        }
+        s
+    };
+    match rule {
+        "lowercase" => v.to_ascii_lowercase(),
+        "UPPERCASE" => v.to_ascii_uppercase(),
+        "camelCase" => v[..1].to_ascii_lowercase() + &v[1..],
+        "snake_case" => snake(v),
+        "SCREAMING_SNAKE_CASE" => snake(v).to_ascii_uppercase(),
+        _ => v.to_string(), // PascalCase
+    }
+}
+fn rename_field(rule: &str, f: &str) -> String {
+    let pascal = |f: &str| {
+        let mut s = String::new();
+        let mut cap = true;
+        for ch in f.chars() {
+            if ch == '_' {
+                cap = true;
+            } else if cap {
+                s.push(ch.to_ascii_uppercase());
+                cap = false;
+            } else {
+                s.push(ch);
+            }
+        }
+        s
+    };
+    match rule {
+        "UPPERCASE" | "SCREAMING_SNAKE_CASE" => f.to_ascii_uppercase(),
+        "PascalCase" => pascal(f),
+        "camelCase" => {
+            let p = pascal(f);
+            p[..1].to_ascii_lowercase() + &p[1..]
+        }
+        _ => f.to_string(), // lowercase, snake_case
+    }
+}
+
+fn serde_fmt(spec: &Spec, t: &Ty, bytes: bool) -> serde_json::Value {
+    use serde_json::json;
+    match t {
+        Ty::Prim(p) => json!(match p.as_str() {
+            "bool" => "BOOL", "u8" => "U8", "u16" => "U16", "u32" => "U32", "u64" => "U64", "u128" => "U128",
+            "i8" => "I8", "i16" => "I16", "i32" => "I32", "i64" => "I64", "usize" => "U64", "isize" => "I64", "char" => "CHAR",
+            other => panic!("prim {other}"),
+        }),
+        Ty::Str => json!("STR"),
+        Ty::Opt(x) => json!({"OPTION": serde_fmt(spec, x, false)}),
+        Ty::Vec(_) if bytes => json!("BYTES"),
+        Ty::Vec(x) => json!({"SEQ": serde_fmt(spec, x, false)}),
+        // (serde-reflection would further compress a homogeneous tuple into TUPLEARRAY; not compared)
+        Ty::Tuple(xs) => json!({"TUPLE": xs.iter().map(|x| serde_fmt(spec, x, false)).collect::<Vec<_>>()}),
+        // references are written with the Rust name, as the CLI does (serde uses the renamed name:
+        // known class renamed_type_reference, detected separately as a dangling reference)
+        Ty::Local(i) => json!({"TYPENAME": spec.types[*i].name}),
+        Ty::Range(_) => json!({"TYPENAME": "Range"}),
+    }
+}
+
+fn has_homogeneous_tuple(t: &Ty) -> bool {
+    match t {
+        Ty::Tuple(xs) => xs.len() > 1 && xs.iter().all(|x| format!("{x:?}") == format!("{:?}", xs[0])) || xs.iter().any(has_homogeneous_tuple),
+        Ty::Opt(x) | Ty::Vec(x) => has_homogeneous_tuple(x),
+        _ => false,
+    }
+}
+
+/// For every type of the spec whose serde shape is unambiguous, the container serde's derive
+/// describes (Deserialize view: skipped variants do not count), keyed by its serde name. Types with
+/// a skipped member in a tuple position, no member at all, or a homogeneous tuple are left out
+/// (serde and the CLI's conventions legitimately differ or serde-reflection normalises there).
+pub fn serde_expected(spec: &Spec) -> serde_json::Map<String, serde_json::Value> {
+    use serde_json::{json, Value};
+    let mut out = serde_json::Map::new();
+    let mut seen: HashMap<String, u32> = HashMap::new();
+    let named = |fs: &[Field], rule: Option<&String>| -> Option<Vec<Value>> {
+        let live: Vec<&Field> = fs.iter().filter(|f| !f.skip).collect();
+        if live.is_empty() || live.iter().any(|f| has_homogeneous_tuple(&f.ty)) {
+            return None;
+        }
+        Some(
+            live.iter()
+                .map(|f| {
+                    let n = f.rename.clone().unwrap_or_else(|| rule.map(|r| rename_field(r, &f.name)).unwrap_or_else(|| f.name.clone()));
+                    json!({ n: serde_fmt(spec, &f.ty, f.bytes) })
+                })
+                .collect(),
+        )
+    };
+    let tuple = |fs: &[Field]| -> Option<Vec<Value>> {
+        if fs.is_empty() || fs.iter().any(|f| f.skip || has_homogeneous_tuple(&f.ty)) {
+            return None;
+        }
+        Some(fs.iter().map(|f| serde_fmt(spec, &f.ty, f.bytes)).collect())
+    };
+    for t in &spec.types {
+        let key = t.rename.clone().unwrap_or_else(|| t.name.clone());
+        *seen.entry(key.clone()).or_insert(0) += 1;
+        let c: Option<Value> = match &t.body {
+            Body::Unit => Some(json!("UNITSTRUCT")),
+            Body::Plain(fs) => named(fs, t.rename_all.as_ref()).map(|v| json!({"STRUCT": v})),
+            Body::Tuple(fs) => tuple(fs).map(|v| if v.len() == 1 { json!({"NEWTYPESTRUCT": v[0]}) } else { json!({"TUPLESTRUCT": v}) }),
+            Body::Enum(vs) => {
+                let live: Vec<&Variant> = vs.iter().filter(|v| !v.skip).collect();
+                let mut m = serde_json::Map::new();
+                let mut ok = !live.is_empty();
+                for (i, v) in live.iter().enumerate() {
+                    let n = v.rename.clone().unwrap_or_else(|| t.rename_all.as_ref().map(|r| rename_variant(r, &v.name)).unwrap_or_else(|| v.name.clone()));
+                    let body = match &v.body {
+                        VBody::Plain => Some(json!("UNIT")),
+                        VBody::Tuple(fs) => tuple(fs).map(|x| if x.len() == 1 { json!({"NEWTYPE": x[0]}) } else { json!({"TUPLE": x}) }),
+                        VBody::Struct(fs) => named(fs, None).map(|x| json!({"STRUCT": x})),
+                    };
+                    match body {
+                        Some(b) => {
+                            m.insert(i.to_string(), json!({ n: b }));
+                        }
+                        None => ok = false,
+                    }
+                }
+                if ok { Some(json!({"ENUM": m})) } else { None }
+            }
+        };
+        if let Some(c) = c {
+            out.insert(key, c);
+        }
+    }
+    for (k, n) in seen {
+        if n > 1 {
+            out.remove(&k);
+        }
+    }
+    out
+}
